@@ -69,7 +69,7 @@ def concretize(prop, ob):
         import re as _re
         mode = name[6:name.index("]")]
         scen = name[name.index("]/") + 2:name.rindex("/")]
-        m = _re.search(r"after ([a-z+\-]+)@mkloc\((\d+)", detail)
+        m = _re.search(r"after ([a-z+\-]+)@(?:mkloc|sdir)\((\d+)", detail)
         if m:
             kinds = {"0": "obj", "1": "pidref", "2": "cidref", "3": "meta", "4": "tmp-obj",
                      "5": "tmp-meta", "6": "tmp-refs"}
@@ -84,6 +84,23 @@ def concretize(prop, ob):
         from_tab = detail if detail and " " not in detail else case[len("accepts:"):]
         out.append(("pure_call", {"function": "_clean_algorithm", "args": [from_tab],
                                   "expect": ["return", repr(_canon(from_tab))]}))
+    # last resort for the reference / object / metadata layer: bounded search for a failing call
+    # sequence next to an independent reference model of the property statements
+    REFLAYER = ("_is_string_in_refs_file", "_update_refs_file", "_store_hashstore_refs_files",
+                "tag_object", "delete_object", "_find_object", "_delete_object_only",
+                "_write_refs_file", "_verify_hashstore_references", "store_object",
+                "_move_and_get_checksums", "delete_if_invalid_object", "_rename_path_for_deletion",
+                "_delete_marked_files")
+    METALAYER = ("store_metadata", "delete_metadata", "retrieve_metadata", "_put_metadata",
+                 "_mktmpmetadata")
+    short = fn.split(".")[-1]
+    if short in REFLAYER or name.startswith("lemma/"):
+        out.append(("model_sweep", {"length": 3, "focus": ["tag", "delete", "store"]}))
+    if short in METALAYER or short == "delete_object":
+        out.append(("model_sweep", {"length": 3, "metadata": True, "focus": ["smeta", "dmeta"],
+                                    "pids": ["pid-a", "pid-b"]}))
+        out.append(("model_sweep", {"length": 4, "metadata": True, "contents": 1, "no_tag": True,
+                                    "require_all": ["smeta", "delete"], "pids": ["pid-a", "pid-b"]}))
     return out
 
 
@@ -120,11 +137,19 @@ def replay_refutation(prop, ob, bad, root):
             break
         if res.get("reproduced") is False:
             any_ok = True
+    approx = any((o.get("model") or {}).get("__approximated__") for o in bad) and \
+        all((o.get("model") or {}).get("__approximated__") for o in bad)
     if verdict != "reproduced":
         # the scenarios derived from the model pass natively: the counter-model could not be
         # turned into a failing input.  This is reported, never silently dropped.
         sc["observed"] = "no derived scenario fails natively" if cands else \
             "no concretiser for this obligation: the verifier's output is attached"
+        if approx and cands and any_ok:
+            # the refuted path went through an over-approximated library operation and the real
+            # code behaves correctly on every derived scenario: a spurious counterexample
+            verdict = "spurious"
+            sc["observed"] += "; the path used approximated operations: " + \
+                ", ".join((bad[0].get("model") or {}).get("__approximated__", []))
     sc["verdict"] = verdict
     with open(path, "w") as fh:
         json.dump(sc, fh, indent=1, default=str)
